@@ -1,3 +1,250 @@
-/- C07 — stub (theorems follow) -/
-import RtoscModel.Osc.Valid
-import RtoscModel.Osc.Decode
+/-
+  C07 — Validation of untrusted bytes is sound.
+  Property theorems only; helper lemmas live in Proofs/Valid*.lean, the models in Osc/Valid.lean
+  (+ Osc/Read.lean), the reference decoder in Osc/Decode.lean.
+
+  Reading of the statement.  `bs : Bytes` is an arbitrary byte buffer; the caller owns exactly
+  these `n = bs.length` bytes and passes `len = n`.  The model functions return `Res`: `.ok v`,
+  `.oob` (some byte outside the block was read) or `.spin` (a loop does not stop); the readers
+  return `Option`, `none` meaning a read outside the block.  So "`= .ok …`" / "`= some …`" says at
+  once: terminates, reads only inside the n bytes, returns that value.
+  The only hypothesis on the buffer is `Sized bs` (`n < 2^31`: the code keeps positions in
+  `unsigned` and sizes in `int`).
+  The code is the repaired one (fixes/C07-*.patch): blob length and bundle element size must fit
+  the remaining bytes, `len == 0`, empty type string with non-zero padding, empty string argument.
+-/
+import RtoscModel.Proofs.ValidDecode
+namespace Rtosc.Osc.V
+open Rtosc Rtosc.Osc
+
+/-- The buffers the property quantifies over: any bytes, fewer than 2^31 of them. -/
+def Sized (bs : Bytes) : Prop := bs.length < 2147483648
+
+instance (bs : Bytes) : Decidable (Sized bs) := by unfold Sized; exact inferInstance
+
+/-- the validator accepts the buffer -/
+def Valid (bs : Bytes) : Prop := validMessageP bs bs.length = .ok true
+
+instance (bs : Bytes) : Decidable (Valid bs) := by unfold Valid; exact inferInstance
+
+/-- **length_terminates** — the fuel lemma: on every buffer the loops of `rtosc_message_length`
+    (path scan, type-string scan, argument walk, bundle walk) and of `rtosc_valid_message_p` finish
+    within the fuel the model gives them (`len + 2` rounds each); in particular the argument walk
+    never reads on behind the type string. -/
+theorem length_terminates (bs : Bytes) (h : Sized bs) :
+    messageLength bs bs.length ≠ .spin ∧ validMessageP bs bs.length ≠ .spin := by
+  obtain ⟨v, hv, _⟩ := messageLength_ok bs h
+  rw [hv, validMessageP_eq bs h]
+  exact ⟨by simp, by simp⟩
+
+/-- **length_reads_in_bounds** — `rtosc_message_length(msg, n)` reads no byte outside the n bytes. -/
+theorem length_reads_in_bounds (bs : Bytes) (h : Sized bs) : messageLength bs bs.length ≠ .oob := by
+  obtain ⟨v, hv, _⟩ := messageLength_ok bs h
+  rw [hv]; simp
+
+/-- **valid_reads_in_bounds** — `rtosc_valid_message_p(msg, n)` reads no byte outside the n bytes
+    (for n = 0 it reads nothing at all). -/
+theorem valid_reads_in_bounds (bs : Bytes) (h : Sized bs) : validMessageP bs bs.length ≠ .oob := by
+  rw [validMessageP_eq bs h]; simp
+
+/-- **length_zero_or_le** — the reported length is 0 or at most n. -/
+theorem length_zero_or_le (bs : Bytes) (h : Sized bs) :
+    ∃ v, messageLength bs bs.length = .ok v ∧ (v = 0 ∨ v ≤ bs.length) :=
+  messageLength_ok bs h
+
+/-- following a returned union stays inside the block -/
+theorem view_extent (m : Bytes) (cv : CVal) (v : Val) (h : cv.view m = some v) :
+    ∃ x, extent m cv = some x ∧ x ≤ m.length := by
+  cases cv with
+  | str off =>
+    simp only [CVal.view, Option.map_eq_some_iff] at h
+    obtain ⟨s, hs, _⟩ := h
+    have key : ∀ (l : Bytes) (s : Bytes), cstr l = some s → nulIdx l = some s.length ∧ s.length < l.length := by
+      intro l
+      induction l with
+      | nil => intro s h; simp [cstr] at h
+      | cons b r ih =>
+        intro s h
+        simp only [cstr] at h
+        split at h
+        · rename_i hb; simp only [Option.some.injEq] at h; subst h; simp [nulIdx, hb]
+        · rename_i hb
+          simp only [Option.map_eq_some_iff] at h
+          obtain ⟨s', hs', rfl⟩ := h
+          obtain ⟨h1, h2⟩ := ih s' hs'
+          simp [nulIdx, hb, h1]; omega
+    obtain ⟨h1, h2⟩ := key _ s hs
+    refine ⟨off + s.length + 1, by simp [extent, h1], ?_⟩
+    simp only [List.length_drop] at h2; omega
+  | blob len off =>
+    simp only [CVal.view] at h
+    split at h
+    · rename_i hc; exact ⟨_, rfl, hc.2⟩
+    · simp at h
+  | zero => exact ⟨0, rfl, Nat.zero_le _⟩
+  | tf b => exact ⟨0, rfl, Nat.zero_le _⟩
+  | w32 x => exact ⟨0, rfl, Nat.zero_le _⟩
+  | w64 x => exact ⟨0, rfl, Nat.zero_le _⟩
+  | midi a b c d => exact ⟨0, rfl, Nat.zero_le _⟩
+
+/-- what the readers return on an accepted buffer, in terms of the message `m` a decoder returns -/
+def ReadersReturn (bs : Bytes) (m : Msg) : Prop :=
+  (∃ a, argString bs = some a ∧ cstrAt bs a = some m.tags) ∧
+  narguments bs = some (Spec.values m).length ∧
+  (∀ i t v, (Spec.values m)[i]? = some (t, v) → typeAt bs i = some t ∧ argumentView bs i = some v) ∧
+  iterateView bs = some (Spec.values m)
+
+theorem valid_layout (bs : Bytes) (h : Sized bs) (hv : Valid bs) :
+    ∃ s tags pad j args A, Layout bs s tags pad j args A := by
+  unfold Valid at hv
+  rw [validMessageP_eq bs h] at hv
+  exact layout_of_valid bs h (by simpa using hv)
+
+/-- **valid_accessors_eq_decodeLax** — whenever the validator accepts, the decoder that ignores
+    the content of padding bytes (and passes unknown tags as tags without payload) decodes the
+    buffer, and argument string, count, type by index, argument by index (pointers followed:
+    string bytes, blob bytes) and the iterator sequence are exactly what it returns.  No
+    exclusions. -/
+theorem valid_accessors_eq_decodeLax (bs : Bytes) (h : Sized bs) (hv : Valid bs) :
+    ∃ m, Spec.decodeLax bs = some m ∧ ReadersReturn bs m := by
+  obtain ⟨s, tags, pad, j, args, A, L⟩ := valid_layout bs h hv
+  obtain ⟨h1, h2, h3, h4, h5⟩ := readers_of_layout L h
+  exact ⟨⟨47 :: s, tags, args⟩, decodeLax_of_layout L, ⟨_, h1, h2⟩, h3, h4, h5⟩
+
+/-- **valid_accessors_in_bounds** — whenever the validator accepts, every reader stays inside the
+    n bytes: the argument string and its terminator, the count, and for every argument index the
+    type, the value (`rtosc_argument`) *and the extent a caller touches by following it* — the
+    string up to and including its terminator, all `len` blob bytes — are at offsets `≤ n`; the
+    same for every element the iterator yields, and the iterator yields exactly `count` elements. -/
+theorem valid_accessors_in_bounds (bs : Bytes) (h : Sized bs) (hv : Valid bs) :
+    ∃ a tags n, argString bs = some a ∧ cstrAt bs a = some tags ∧ a + tags.length < bs.length ∧
+      narguments bs = some n ∧
+      (∀ i, i < n → ∃ t cv x, typeAt bs i = some t ∧ argument bs i = some cv ∧
+        extent bs cv = some x ∧ x ≤ bs.length) ∧
+      ∃ l, iterate bs = some l ∧ l.length = n ∧
+        ∀ p ∈ l, ∃ x, extent bs p.2 = some x ∧ x ≤ bs.length := by
+  obtain ⟨m, _, ⟨a, h1, h2⟩, h3, h4, h5⟩ := valid_accessors_eq_decodeLax bs h hv
+  refine ⟨a, m.tags, _, h1, h2, ?_, h3, ?_, ?_⟩
+  · -- the terminator of the type string is inside
+    have key : ∀ (l s : Bytes), cstr l = some s → s.length < l.length := by
+      intro l
+      induction l with
+      | nil => intro s h; simp [cstr] at h
+      | cons b r ih =>
+        intro s h
+        simp only [cstr] at h
+        split at h
+        · simp only [Option.some.injEq] at h; subst h; simp
+        · simp only [Option.map_eq_some_iff] at h
+          obtain ⟨s', hs', rfl⟩ := h
+          have := ih s' hs'; simp; omega
+    have := key _ _ h2
+    simp only [List.length_drop] at this; omega
+  · intro i hi
+    obtain ⟨tv, htv⟩ : ∃ tv, (Spec.values m)[i]? = some tv := ⟨_, List.getElem?_eq_getElem hi⟩
+    obtain ⟨ht, hav⟩ := h4 i tv.1 tv.2 htv
+    simp only [argumentView] at hav
+    cases hcv : argument bs i with
+    | none => rw [hcv] at hav; simp at hav
+    | some cv =>
+      rw [hcv] at hav
+      obtain ⟨x, hx1, hx2⟩ := view_extent bs cv tv.2 hav
+      exact ⟨tv.1, cv, x, ht, rfl, hx1, hx2⟩
+  · simp only [iterateView] at h5
+    cases hl : iterate bs with
+    | none => rw [hl] at h5; simp at h5
+    | some l =>
+      rw [hl] at h5
+      refine ⟨l, rfl, (mapM_length _ l _ h5).symm, ?_⟩
+      -- every viewed element has its extent inside
+      have key : ∀ (l : List (UInt8 × CVal)) (r : List (UInt8 × Val)),
+          l.mapM (fun x => (x.2.view bs).map (fun v => (x.1, v))) = some r →
+          ∀ p ∈ l, ∃ v, p.2.view bs = some v := by
+        intro l
+        induction l with
+        | nil => intro r _ p hp; cases hp
+        | cons x xs ih =>
+          intro r hr p hp
+          simp only [List.mapM_cons] at hr
+          cases hx : x.2.view bs with
+          | none => simp [hx] at hr
+          | some v =>
+            cases hxs : xs.mapM (fun x => (x.2.view bs).map (fun v => (x.1, v))) with
+            | none => simp [hx, hxs] at hr
+            | some ys =>
+              rcases List.mem_cons.mp hp with rfl | hp'
+              · exact ⟨v, hx⟩
+              · exact ih ys hxs p hp'
+      intro p hp
+      obtain ⟨v, hv'⟩ := key l _ h5 p hp
+      exact view_extent bs p.2 v hv'
+
+/-- the full statement with the *strict* OSC 1.0 decoder -/
+def valid_accessors_eq_decode_statement : Prop :=
+  ∀ bs : Bytes, Sized bs → Valid bs → ∃ m, Spec.decode bs = some m ∧ ReadersReturn bs m
+
+/-- **valid_accessors_eq_decode_partial** — whenever the validator accepts and the buffer is not
+    in the class of known finding C07-K1 (`NonCanonical`: a decoder that ignores padding content
+    and unknown tags accepts, the strict one does not), the strict OSC 1.0 decoder decodes the
+    buffer and every reader returns exactly what it returns. -/
+theorem valid_accessors_eq_decode_partial (bs : Bytes) (h : Sized bs) (hv : Valid bs)
+    (hk : ¬ NonCanonical bs) : ∃ m, Spec.decode bs = some m ∧ ReadersReturn bs m := by
+  obtain ⟨m, hm, hr⟩ := valid_accessors_eq_decodeLax bs h hv
+  cases hs : Spec.decode bs with
+  | none => exact absurd ⟨by rw [hm]; rfl, by rw [hs]; rfl⟩ hk
+  | some m' =>
+    have := decode_strict_lax hs
+    rw [hm] at this; cases this
+    exact ⟨m, rfl, hr⟩
+
+/-- the witness of C07-K1: `/a` `,i` with the padding byte behind the type string's terminator
+    set to 1, one int -/
+def k1Witness : Bytes := [47, 97, 0, 0, 44, 105, 0, 1, 0, 0, 0, 5]
+
+/-- **valid_accessors_eq_decode_counterexample** — the statement with the strict decoder is false
+    of the code: the validator accepts a buffer with a non-zero padding byte, the strict decoder
+    rejects it (the buffer is in the trigger class, and the readers return what the lax decoder
+    returns). -/
+theorem valid_accessors_eq_decode_counterexample : ¬ valid_accessors_eq_decode_statement := by
+  intro hst
+  have hs : Sized k1Witness := by decide
+  have hv : Valid k1Witness := by decide +kernel
+  obtain ⟨m, hm, _⟩ := hst k1Witness hs hv
+  have : Spec.decode k1Witness = none := by decide +kernel
+  rw [this] at hm; cases hm
+
+/-! ### Non-vacuity -/
+
+/-- `"/ab" "[sb]i"` with a 5-byte string, a 3-byte blob and an int (the C01 example message) -/
+def exBytes : Bytes :=
+  [47, 97, 98, 0, 44, 91, 115, 98, 93, 105, 0, 0, 104, 101, 108, 108, 111, 0, 0, 0,
+   0, 0, 0, 3, 1, 2, 3, 0, 127, 255, 255, 255]
+
+example : Sized exBytes := by decide
+example : Valid exBytes := by decide +kernel
+example : ¬ NonCanonical exBytes := by decide +kernel
+example : messageLength exBytes exBytes.length = .ok 32 := by decide +kernel
+example : Spec.decode exBytes = some ⟨[47, 97, 98], [91, 115, 98, 93, 105],
+    [.str [104, 101, 108, 108, 111], .blob [1, 2, 3], .w32 0x7fffffff]⟩ := by decide +kernel
+example : iterateView exBytes = some [(115, .arg (.str [104, 101, 108, 108, 111])),
+    (98, .arg (.blob [1, 2, 3])), (105, .arg (.w32 0x7fffffff))] := by decide +kernel
+/-- the K1 witness is accepted, is in the trigger class, and the lax decoder reads it as `/a ,i 5` -/
+example : Valid k1Witness ∧ NonCanonical k1Witness ∧
+    Spec.decodeLax k1Witness = some ⟨[47, 97], [105], [.w32 5]⟩ := by decide +kernel
+/-- a buffer with an unknown tag `x` and dirty blob padding is accepted too -/
+example : Valid [47, 97, 0, 0, 44, 120, 98, 0, 0, 0, 0, 1, 9, 7, 7, 7] := by decide +kernel
+/-- the witnesses of the repaired defects are rejected, and nothing is read outside:
+    blob length 0xfffffff8 (F7), the empty buffer (F7b), the bundle whose element size is
+    0xfffffffc (hang), `\0abc` as a string argument (K3) -/
+example : validMessageP [47, 97, 0, 0, 44, 98, 105, 105, 0, 0, 0, 0, 255, 255, 255, 248] 16 = .ok false := by
+  decide +kernel
+example : validMessageP [] 0 = .ok false := by decide
+example : messageLength ([35, 98, 117, 110, 100, 108, 101, 0] ++ [0, 0, 0, 0, 0, 0, 0, 1] ++ [255, 255, 255, 252]) 20
+    = .ok 0 := by decide +kernel
+example : validMessageP [47, 97, 0, 0, 44, 115, 105, 0, 0, 97, 98, 99, 0, 0, 0, 0, 0, 0, 0, 7] 20 = .ok false := by
+  decide +kernel
+/-- an empty type string followed by non-zero padding is accepted, and the iterator stays inside -/
+example : Valid [47, 97, 0, 0, 44, 0, 88, 89] ∧ iterate [47, 97, 0, 0, 44, 0, 88, 89] = some [] := by
+  decide +kernel
+
+end Rtosc.Osc.V
